@@ -12,6 +12,7 @@
      {"ev":"pr","runs":[..]}                                  the peer's reader returned these runs
      {"ev":"pclose"} {"ev":"phr"}                             the peer closed first / sent HelloRequest and will refuse
                                                               the renegotiation (it may not have read everything)
+     {"ev":"dblw","n":n}                                      n > 1 transport writes of the connection in flight at once
      {"ev":"final","peerdone":b}                              transport down, deadlines expired, watchdog elapsed
      other events ("phs","pwe","preof","expire","down") carry no obligation.                         *)
 EXTENDS TLSConn, TLC, Json
@@ -98,6 +99,9 @@ TraceNext ==
                                             \* refuses with a fatal alert - it ends the connection like a close
             /\ pclosed' = TRUE
             /\ UNCHANGED <<writes, pred, okW, recv, sent, claimed, floor, maxEnd, open>>
+       [] e.ev = "dblw" ->                   \* the scheduler saw e.n goroutines inside transport Write at once
+            /\ NoOverlap(e.n)
+            /\ UNCHANGED <<writes, pred, okW, recv, sent, claimed, floor, maxEnd, open, pclosed>>
        [] e.ev = "final" ->
             /\ AllEnded(open)
             /\ NoHole(claimed, sent)
